@@ -64,6 +64,8 @@ type Stats struct {
 	CacheMissesInj int64
 	Switches       int64 // scheduler hand-offs between different goroutines
 	Preemptions    int64 // hand-offs that happened inside an operation
+	HotPoints      int64 // synchronisation points passed while the scheduler was active
+	HotPreemptions int64 // pre-emptions taken at a synchronisation point
 	SchedHash      uint64
 }
 
